@@ -135,8 +135,84 @@ func CallOK(name string, cs ...Callee) Req {
 				}
 			}
 		}
+		// one-level callee summary: a same-package helper whose every success return is itself behind "callee ok"
+		for _, f := range scopeFuncs(s.Fn) {
+			for _, b := range f.Blocks {
+				for _, ins := range b.Instrs {
+					call, ok := ins.(*ssa.Call)
+					if !ok {
+						continue
+					}
+					h, ok := call.Call.Value.(*ssa.Function)
+					if !ok || h.Pkg == nil || h.Pkg != Outermost(s.Fn).Pkg || len(h.Blocks) == 0 || h == Outermost(s.Fn) {
+						continue
+					}
+					e := ErrResult(call, -1)
+					if e == nil || !isErrorType(e.Type()) {
+						continue
+					}
+					okHere := s.IsNil(e)
+					if ret, isRet := at.(*ssa.Return); isRet && len(ret.Results) > 0 && s.Key(s.RetVal(ret, -1)) == s.Key(e) {
+						okHere = true
+					}
+					if okHere && s.P.helperEnsuresOK(h, cs) {
+						return true
+					}
+				}
+			}
+		}
 		return false
 	}}
+}
+
+func isErrorType(t types.Type) bool {
+	n, ok := t.(*types.Named)
+	return ok && n.Obj().Name() == "error" && n.Obj().Pkg() == nil
+}
+
+// helperEnsuresOK: every return of h whose error is not known non-nil is reached only with some call to one of cs
+// having a nil error (or forwarding it). Memoised per (function, callee set).
+func (p *Prog) helperEnsuresOK(h *ssa.Function, cs []Callee) bool {
+	key := h.String() + "|" + fmt.Sprint(cs)
+	if p.helperMemo == nil {
+		p.helperMemo = map[string]bool{}
+	}
+	if v, ok := p.helperMemo[key]; ok {
+		return v
+	}
+	p.helperMemo[key] = false // recursion guard
+	calls := Calls(h, cs...)
+	if len(calls) == 0 {
+		return false
+	}
+	ok, n := true, 0
+	ex := &Explorer{P: p, MaxStates: 50000}
+	ex.OnInstr = func(s *State, ins ssa.Instruction) bool {
+		ret, isRet := ins.(*ssa.Return)
+		if !isRet || len(ret.Results) == 0 {
+			return true
+		}
+		rv := s.RetVal(ret, -1)
+		if s.KnownNonNilErr(rv) {
+			return true
+		}
+		n++
+		good := false
+		for _, c := range calls {
+			e := ErrResult(c, -1)
+			if e != nil && (s.IsNil(e) || s.Key(rv) == s.Key(e)) {
+				good = true
+			}
+		}
+		if !good {
+			ok = false
+		}
+		return true
+	}
+	ex.Run(h, nil)
+	res := ok && n > 0 && !ex.Truncated
+	p.helperMemo[key] = res
+	return res
 }
 
 // CallTrue: some call to one of the callees has result #idx known true on this path.
@@ -346,15 +422,77 @@ func (c *Check) ErrProp(spec ErrPropSpec) bool {
 // CallFailed builds a Failing predicate: some call to the callees has a known non-nil error result.
 func CallFailed(cs ...Callee) func(s *State) (bool, string) {
 	return func(s *State) (bool, string) {
+		direct := 0
 		for _, f := range scopeFuncs(s.Fn) {
 			for _, call := range Calls(f, cs...) {
+				direct++
 				if e := ErrResult(call, -1); e != nil && s.NonNil(e) {
 					return true, fmt.Sprintf("%s failed (error known non-nil)", s.P.Describe(call))
 				}
 			}
 		}
+		if direct > 0 {
+			return false, ""
+		}
+		// the check was moved into a same-package helper: the helper's failure stands for the check's failure
+		// (it must itself propagate the check's failure: helperPropagates)
+		for _, f := range scopeFuncs(s.Fn) {
+			for _, b := range f.Blocks {
+				for _, ins := range b.Instrs {
+					call, ok := ins.(*ssa.Call)
+					if !ok {
+						continue
+					}
+					h, ok := call.Call.Value.(*ssa.Function)
+					if !ok || h.Pkg == nil || h.Pkg != Outermost(s.Fn).Pkg || len(Calls(h, cs...)) == 0 {
+						continue
+					}
+					if e := ErrResult(call, -1); e != nil && isErrorType(e.Type()) && s.NonNil(e) && s.P.helperPropagates(h, cs) {
+						return true, fmt.Sprintf("helper %s (which performs the check) failed", FuncName(h))
+					}
+				}
+			}
+		}
 		return false, ""
 	}
+}
+
+// helperPropagates: inside h, whenever a call to cs has a known non-nil error, no return yields a known-nil error.
+func (p *Prog) helperPropagates(h *ssa.Function, cs []Callee) bool {
+	key := "prop|" + h.String() + "|" + fmt.Sprint(cs)
+	if p.helperMemo == nil {
+		p.helperMemo = map[string]bool{}
+	}
+	if v, ok := p.helperMemo[key]; ok {
+		return v
+	}
+	p.helperMemo[key] = false
+	calls := Calls(h, cs...)
+	ok, n := true, 0
+	ex := &Explorer{P: p, MaxStates: 50000}
+	ex.OnInstr = func(s *State, ins ssa.Instruction) bool {
+		ret, isRet := ins.(*ssa.Return)
+		if !isRet || len(ret.Results) == 0 {
+			return true
+		}
+		failed := false
+		for _, c := range calls {
+			if e := ErrResult(c, -1); e != nil && s.NonNil(e) {
+				failed = true
+			}
+		}
+		if failed {
+			n++
+			if s.KnownNilErr(s.RetVal(ret, -1)) {
+				ok = false
+			}
+		}
+		return true
+	}
+	ex.Run(h, nil)
+	res := ok && n > 0 && !ex.Truncated
+	p.helperMemo[key] = res
+	return res
 }
 
 // NilRetSpec: no return may yield (known-nil value, known-nil error).
